@@ -478,6 +478,12 @@ class Engine:
                     items.append(("sym", "uninit"))
                 items[i] = self.write_value(items[i], proj[1:], new, st)
                 return ("tuple", tuple(items))
+            if old[0] == "closure":
+                i = int(name)
+                items = list(old[2])
+                if i < len(items):
+                    items[i] = self.write_value(items[i], proj[1:], new, st)
+                    return ("closure", old[1], tuple(items))
             # symbolic base: turn into an open adt remembering its base
             cur = ("field", old, name)
             return adt_set(("adt", "?open", "", (("__base", old),)), name, self.write_value(cur, proj[1:], new, st))
@@ -797,7 +803,12 @@ class Engine:
             blk = body.blocks[b]
             for s in blk["stmts"]:
                 if s["k"] in ("assign", "setdiscr"):
-                    res.add(s["pl"]["l"])
+                    if not any(pe["k"] == "deref" for pe in s["pl"]["p"]):
+                        res.add(s["pl"]["l"])
+                    # a mutable borrow inside the loop: the borrowed local may change
+                    if s["k"] == "assign" and s["rv"]["k"] == "ref" and s["rv"].get("mut") \
+                            and not any(pe["k"] == "deref" for pe in s["rv"]["pl"]["p"]):
+                        res.add(s["rv"]["pl"]["l"])
             t = blk["term"]
             if t["k"] == "call":
                 res.add(t["dest"]["l"])
@@ -1100,8 +1111,11 @@ class Engine:
                                  loc=loc, ncond=len(st.cond), serial=n, result=res,
                                  exp=t.get("exp") if t else None))
         # std collection mutators called through `&mut`: the referent gets a new version
-        if t is not None and frame is not None and target.startswith(STD_PREFIXES):
+        if t is not None and frame is not None:
+            external = target.startswith(STD_PREFIXES) or self.find_body(target) is None
             for i, a in enumerate(args):
+                if not external and i == 0:
+                    continue  # `&mut self` of a local, non-inlined callee: its effects are the rule's business
                 if a[0] == "ref" and i < len(t["args"]) and self.is_mut_ref_operand(frame, t["args"][i]):
                     old = self.read_path(st, st.cells[a[1]], a[2])
                     others = tuple(x for j, x in enumerate(seen) if j != i)
@@ -1327,6 +1341,11 @@ def _i_from_into(eng, st, frame, args, finfo, t):
     return NotImplemented
 
 
+def _i_try_into(eng, st, frame, args, finfo, t):
+    """integer TryInto/TryFrom: modelled as the successful conversion Ok(x)"""
+    return [(st, mk_adt("std::result::Result", "Ok", [("0", args[0])]))]
+
+
 def _i_pow(eng, st, frame, args, finfo, t):
     a, b = args[0], args[1]
     if is_concrete_int(a) and is_concrete_int(b) and 0 <= b[1] < 256:
@@ -1405,6 +1424,8 @@ DEFAULT_INTRINSICS = {
     "std::ops::Index::index": _i_index,
     "<T as std::convert::Into<U>>::into": _i_from_into,
     "std::convert::Into::into": _i_from_into,
+    "<T as std::convert::TryInto<U>>::try_into": _i_try_into,
+    "std::convert::TryInto::try_into": _i_try_into,
     "std::ops::IndexMut::index_mut": _i_index,
 }
 
@@ -1418,6 +1439,7 @@ def _p_eq_impl(eng, st, frame, args, finfo, t):
 
 
 PATTERN_INTRINSICS = [
+    (re.compile(r"^(core|std)::convert::num::<impl (std|core)::convert::TryFrom<\w+> for \w+>::try_from$"), _i_try_into),
     (re.compile(r"^(core|std)::num::<impl (usize|u32|u64|i32|i64|u8|u16)>::pow$"), _i_pow),
     (re.compile(r"^<.* as std::clone::Clone>::clone$"), _p_clone),
     (re.compile(r"^std::cmp::impls::<impl std::cmp::PartialEq.*>::eq$"), _p_eq_impl),
